@@ -180,3 +180,18 @@ pub open spec fn outer_langs(s: Seq<LinkedHashMap<TransactionInput, Option<Scrip
 pub proof fn lemma_outer_langs_step(s: Seq<LinkedHashMap<TransactionInput, Option<ScriptWitnessType>>>, i: int)
     requires 0 <= i < s.len() ensures outer_langs(s.take(i + 1)) == outer_langs(s.take(i)) + inner_langs(s[i].vals())
 { assert(s.take(i + 1).drop_last() =~= s.take(i)); }
+
+// ---- C09 (KF-71): the languages IN USE by the inputs are those of the Plutus witnesses whose input is still registered as a script input - the witnesses
+// get_plutus_input_scripts emits redeemers for; a witness left behind by an input that was registered again as a key / Byron input does not count
+pub open spec fn live_inner_langs(m: InputsMap, s: Seq<(TransactionInput, Option<ScriptWitnessType>)>) -> Set<Language> decreases s.len() {
+    if s.len() == 0 { Set::empty() } else { live_inner_langs(m, s.drop_last()) + (if m.scripted(s.last().0) { wit_langs(s.last().1) } else { Set::empty() }) }
+}
+pub proof fn lemma_live_inner_step(m: InputsMap, s: Seq<(TransactionInput, Option<ScriptWitnessType>)>, i: int)
+    requires 0 <= i < s.len() ensures live_inner_langs(m, s.take(i + 1)) == live_inner_langs(m, s.take(i)) + (if m.scripted(s[i].0) { wit_langs(s[i].1) } else { Set::empty() })
+{ assert(s.take(i + 1).drop_last() =~= s.take(i)); }
+pub open spec fn live_outer_langs(m: InputsMap, s: Seq<LinkedHashMap<TransactionInput, Option<ScriptWitnessType>>>) -> Set<Language> decreases s.len() {
+    if s.len() == 0 { Set::empty() } else { live_outer_langs(m, s.drop_last()) + live_inner_langs(m, s.last().entries@) }
+}
+pub proof fn lemma_live_outer_step(m: InputsMap, s: Seq<LinkedHashMap<TransactionInput, Option<ScriptWitnessType>>>, i: int)
+    requires 0 <= i < s.len() ensures live_outer_langs(m, s.take(i + 1)) == live_outer_langs(m, s.take(i)) + live_inner_langs(m, s[i].entries@)
+{ assert(s.take(i + 1).drop_last() =~= s.take(i)); }
